@@ -133,6 +133,10 @@ def check(run):
         # (unlike numba) refuses to read that tracer's never-assigned parameters, so keep such ties out
         case['halo']['hrandoms'][case['halo']['hrandoms'] == 0] = 1e-12
         case['part']['prandoms'][case['part']['prandoms'] == 0] = 1e-12
+        if len(case['part']['pweights']) > 4:
+            case['part']['pweights'][:: 5] = 0.0  # weight 0: never selected, but every pass must still handle the particle
+        if len(case['halo']['hmultis']) > 4:
+            case['halo']['hmultis'][:: 7] = 0.0
         nt = [16, 2, 3, 7, 5, 11, 13, 15][j % 8]
         desc = dict(case['desc'], Nthread=nt, monitor='prange write-set')
         run.progress(desc)
@@ -145,6 +149,8 @@ def check(run):
             run.count('write_set_regions', a['regions'])
             if a['nconflicts']:
                 run.violation('hod-pass-shared-write', dict(kernel=kern, n_conflicting_elements=a['nconflicts'], example=a['conflicts'][0], **desc))
+            if a.get('nuninit'):
+                run.violation('hod-pass-reads-uninitialised-element', dict(kernel=kern, reads=a['uninit_reads'], count=a['nuninit'], **desc))
             if a['nmulti'] or a['nunwritten']:
                 run.violation('hod-fill-pass-not-exactly-once', dict(kernel=kern, written_twice=a['multi_written'], unwritten=a['unwritten'], **desc))
         run.nt(('write-set', j, nt))
